@@ -533,19 +533,32 @@ func (e *Engine) execRegion(fr *Frame, st *State, env Env, b *ssa.BasicBlock, pr
 				// loop re-entry on a symbolic condition: prune infeasible arms
 				if !gT.IsFalse() {
 					e.feasCalls++
-					if e.feas(gT) == "unsat" {
+					r := e.feas(gT)
+					if e.trace {
+						fmt.Printf("%*sfeas T: %s\n", e.depth, "", r)
+					}
+					if r == "unsat" {
 						gT = TFalse
 					}
 				}
-				if !gF.IsFalse() && !gT.IsFalse() {
+				if !gF.IsFalse() {
 					e.feasCalls++
-					if e.feas(gF) == "unsat" {
+					r := e.feas(gF)
+					if e.trace {
+						fmt.Printf("%*sfeas F: %s\n", e.depth, "", r)
+					}
+					if r == "unsat" {
 						gF = TFalse
 					}
 				}
 			}
 			if fr.visits[b] > e.unwind {
 				e.addQuery("unwind", fmt.Sprintf("unwinding bound %d exceeded", e.unwind), st.g, t)
+				fr.visits[b]--
+				return nil, retAcc
+			}
+			if gT.IsFalse() && gF.IsFalse() {
+				// the state itself is infeasible
 				fr.visits[b]--
 				return nil, retAcc
 			}
@@ -987,6 +1000,16 @@ func (e *Engine) binop(st *State, op token.Token, xt types.Type, a, b Value, yt 
 				return ConcStr(x.s + y.s)
 			}
 		}
+		if x.bytes != nil || y.bytes != nil {
+			eq := strBytesEq(x, y)
+			switch op {
+			case token.EQL:
+				return eq
+			case token.NEQ:
+				return Not(eq)
+			}
+			panic(unsupported("operation %v on byte-string", op))
+		}
 		switch op {
 		case token.EQL:
 			return Eq(x.id, y.id)
@@ -1290,14 +1313,55 @@ func (e *Engine) convert(st *State, v Value, from, to types.Type, instr ssa.Inst
 					}
 					return ConcStr(string(bs))
 				}
-				return &StrV{id: e.symBytesStrID(bytes)}
+				return &StrV{bytes: bytes}
 			}
 		}
 	}
 	if _, ok := to.Underlying().(*types.Pointer); ok {
 		return v
 	}
+	// string -> []byte for concrete strings
+	if tsl, ok := to.Underlying().(*types.Slice); ok && fok && fb.Info()&types.IsString != 0 {
+		if eb, ok := tsl.Elem().Underlying().(*types.Basic); ok && eb.Kind() == types.Uint8 {
+			sv := v.(*StrV)
+			if sv.conc {
+				o := st.NewObj("bytes", tsl.Elem(), len(sv.s))
+				for i := 0; i < len(sv.s); i++ {
+					st.write(o, i, BVConst(int64(sv.s[i]), 8))
+				}
+				n := BVConst(int64(len(sv.s)), 64)
+				return &SliceV{alts: []ObjAlt{{g: TTrue, obj: o, base: 0, n: len(sv.s)}}, off: BVConst(0, 64), len: n, cap: n}
+			}
+		}
+	}
 	panic(unsupported("convert %v -> %v", from, to))
+}
+
+// strBytesEq compares a short symbolic byte-string with a concrete string or
+// another byte-string.
+func strBytesEq(x, y *StrV) *Term {
+	bytesOf := func(v *StrV) []*Term {
+		if v.bytes != nil {
+			return v.bytes
+		}
+		if v.conc {
+			bs := make([]*Term, len(v.s))
+			for i := range bs {
+				bs[i] = BVConst(int64(v.s[i]), 8)
+			}
+			return bs
+		}
+		panic(unsupported("comparison of a byte-string with a symbolic string id"))
+	}
+	a, b := bytesOf(x), bytesOf(y)
+	if len(a) != len(b) {
+		return TFalse
+	}
+	var cs []*Term
+	for i := range a {
+		cs = append(cs, Eq(a[i], b[i]))
+	}
+	return And(cs...)
 }
 
 // symBytesStrID maps a short symbolic byte string to a string id: equal to the
@@ -1591,6 +1655,11 @@ func (e *Engine) builtin(st *State, name string, args []Value, site ssa.Instruct
 		}
 	case "print", "println":
 		return st, nil
+	case "ssa:wrapnilchk":
+		p := args[0].(*PtrV)
+		cp := &PtrV{alts: append([]PtrAlt{}, p.alts...)}
+		e.checkNonNil(st, cp, site)
+		return st, cp
 	}
 	panic(unsupported("builtin %s on %T", name, args[0]))
 }
